@@ -149,7 +149,28 @@ impl Check for PathProp {
     fn generate(&self, seed: u64, index: u64, tier: Tier) -> Scenario {
         let mut rng = Xo::new(mix(seed, self.id, index));
         let o = self.opts(&mut rng, tier);
+        let mut o = o;
+        let frac_probe = self.id == "C06" && index < 24;
+        if frac_probe {
+            // explicit probe scenarios (a handful per run, not part of the random mix): the
+            // resolution setters are given a non-positive fraction
+            o.planner = Some(PlannerKind::ALL[(index % 4) as usize]);
+            o.space_kinds = vec![["RV", "SO2", "SO3"][((index / 4) % 3) as usize]];
+            o.families = vec!["open"];
+            o.max_iters = 5;
+        }
         let mut scn = gen::base(&mut rng, self.id, seed, index, &o);
+        if frac_probe {
+            let f = [0.0, -1.0][((index / 12) % 2) as usize];
+            match &mut scn.space {
+                SpaceSpec::RV { frac, .. } | SpaceSpec::SO2 { frac, .. } | SpaceSpec::SO3 { frac, .. } => *frac = f,
+                _ => {}
+            }
+            scn.family = "nonpositive_resolution_fraction".into();
+            scn.planner.max_distance = scn.param("ext").unwrap_or(1.0) * 0.2;
+            scn.planner.connection_radius = scn.param("ext").unwrap_or(1.0) * 0.5;
+            return scn;
+        }
         match self.id {
             "C01" => {
                 if rng.chance(0.25) {
@@ -342,6 +363,629 @@ impl Check for PathProp {
         }
         let _ = Ev::Call(0);
         rep.violations = v.into_iter().filter(|x| x.property == self.id).collect();
+        rep
+    }
+}
+
+// ==========================================================================================
+// C07 — seeded planning is reproducible (twin runs, schedule perturbation)
+
+pub struct C07;
+
+fn op_label(scn: &Scenario, ci: usize) -> String {
+    let nth = |pred: &dyn Fn(&CallSpec) -> bool| scn.calls[..=ci].iter().filter(|c| pred(c)).count();
+    match &scn.calls[ci] {
+        CallSpec::New => "new".into(),
+        CallSpec::Setup { .. } => "setup".into(),
+        CallSpec::SetProblem { .. } => "set_problem".into(),
+        CallSpec::Construct { .. } => {
+            if nth(&|c| matches!(c, CallSpec::Construct { .. })) == 1 { "construct1".into() } else { "construct2+".into() }
+        }
+        CallSpec::Solve { .. } => {
+            // ordinal since the last New (a fresh planner starts over)
+            let last_new = scn.calls[..ci].iter().rposition(|c| matches!(c, CallSpec::New)).map(|p| p + 1).unwrap_or(0);
+            let n = scn.calls[last_new..=ci].iter().filter(|c| matches!(c, CallSpec::Solve { .. } | CallSpec::Construct { .. })).count();
+            if n == 1 { "solve1".into() } else { "solve2+".into() }
+        }
+    }
+}
+
+/// index of the first event at which two logs differ (kind or payload), ignoring nothing
+fn first_divergence(a: &crate::sim::Outcome, b: &crate::sim::Outcome) -> Option<usize> {
+    let n = a.log.len().min(b.log.len());
+    for i in 0..n {
+        if !ev_bits_eq(&a.log[i], &b.log[i]) {
+            return Some(i);
+        }
+    }
+    if a.log.len() != b.log.len() { Some(n) } else { None }
+}
+
+pub fn ev_bits_eq(a: &Ev, b: &Ev) -> bool {
+    use crate::spaces::bits_eq;
+    match (a, b) {
+        (Ev::Call(x), Ev::Call(y)) | (Ev::Ret(x), Ev::Ret(y)) => x == y,
+        (Ev::Clock(x), Ev::Clock(y)) => x == y,
+        (Ev::SU(None), Ev::SU(None)) | (Ev::SG(None), Ev::SG(None)) => true,
+        (Ev::SU(Some(x)), Ev::SU(Some(y))) | (Ev::SG(Some(x)), Ev::SG(Some(y))) => bits_eq(x, y),
+        (Ev::Valid(x, p), Ev::Valid(y, q)) | (Ev::Sat(x, p), Ev::Sat(y, q)) => p == q && bits_eq(x, y),
+        _ => false,
+    }
+}
+
+fn res_bits_eq(a: &Res, b: &Res) -> bool {
+    match (a, b) {
+        (Res::Path(p), Res::Path(q)) => p.len() == q.len() && p.iter().zip(q).all(|(x, y)| crate::spaces::bits_eq(x, y)),
+        (x, y) => x == y,
+    }
+}
+
+impl Check for C07 {
+    fn id(&self) -> &'static str {
+        "C07"
+    }
+    fn rule(&self) -> String {
+        "scenario i = a seeded planner, a world, a goal sampler that consumes the planner's generator, and a call history (first solve cut short by the virtual clock, further solves, re-setup, PRM construction twice, solve before setup); it is executed twice on fresh instances (twin) and, for single-solve scenarios, a third time under a different clock cost pattern and deadline (schedule perturbation); distinct = distinct scenario hash; non-trivial = both twins executed at least one planning iteration that drew from the planner's generator (a sampling event was recorded)".into()
+    }
+    fn default_runs(&self, tier: Tier) -> u64 {
+        match tier {
+            Tier::Quick => 12_000,
+            Tier::Thorough => 300_000,
+        }
+    }
+    fn assumptions(&self) -> Vec<String> {
+        vec![
+            "a leaked 64-bit entropy draw changes a continuous state with probability 1-2^-53, so twin comparison detects it in practice with certainty".into(),
+            "user callbacks are deterministic".into(),
+        ]
+    }
+    fn required_probes(&self) -> Vec<&'static str> {
+        vec!["second_solve", "resetup", "perturbation_twin", "goal_sampler_consumes_rng"]
+    }
+    fn generate(&self, seed: u64, index: u64, tier: Tier) -> Scenario {
+        let mut rng = Xo::new(mix(seed, "C07", index));
+        let o = GenOpts {
+            max_iters: if tier == Tier::Thorough { 200 } else { 80 },
+            min_frac: 0.01,
+            families: vec!["open", "balls", "balls", "shell_door", "goal_overlap", "sealed_goal"],
+            goal_sampler: Some(*rng.pick(&[GoalSampler::Planner, GoalSampler::Planner, GoalSampler::Fixed])),
+            ..Default::default()
+        };
+        let mut scn = gen::base(&mut rng, "C07", seed, index, &o);
+        if scn.planner.goal_bias == 0.0 && rng.chance(0.5) {
+            scn.planner.goal_bias = 0.3;
+        }
+        let ext = scn.param("ext").unwrap_or(1.0);
+        let l = crate::spaces::geo_for(&scn.space).unwrap().lvs();
+        let it = |rng: &mut Xo, scn: &Scenario| gen::affordable_iters(&scn.planner, l, ext, 1 + rng.below(o.max_iters));
+        let prm = scn.planner.kind == PlannerKind::PRM;
+        match rng.below(8) {
+            0 | 1 => {
+                // single solve: also perturb the schedule
+                scn.params.insert("perturb".into(), 1.0);
+            }
+            2 | 3 => {
+                // first solve cut short, then more
+                if prm {
+                    let a = it(&mut rng, &scn);
+                    scn.calls = vec![CallSpec::Setup { problem: 0 }, gen::construct_call(a), solve_budget(1), solve_budget(1), CallSpec::Setup { problem: 0 }, gen::construct_call(a), solve_budget(1)];
+                } else {
+                    let (a, b) = (1 + rng.below(8), it(&mut rng, &scn));
+                    scn.calls = vec![CallSpec::Setup { problem: 0 }, solve_budget(a), solve_budget(b), solve_budget(b)];
+                }
+            }
+            4 => {
+                let (a, b) = (it(&mut rng, &scn), it(&mut rng, &scn));
+                if prm {
+                    scn.calls = vec![CallSpec::Setup { problem: 0 }, gen::construct_call(a), gen::construct_call(b), solve_budget(1)];
+                } else {
+                    scn.calls = vec![CallSpec::Setup { problem: 0 }, solve_budget(a), CallSpec::Setup { problem: 0 }, solve_budget(b)];
+                }
+            }
+            5 => {
+                // misuse first: solve before setup must not cost the planner its seeded generator
+                let a = it(&mut rng, &scn);
+                if prm {
+                    scn.calls = vec![gen::construct_call(a), solve_budget(1), CallSpec::Setup { problem: 0 }, gen::construct_call(a), solve_budget(1)];
+                } else {
+                    scn.calls = vec![solve_budget(a), CallSpec::Setup { problem: 0 }, solve_budget(a)];
+                }
+            }
+            _ => {}
+        }
+        scn
+    }
+
+    fn evaluate(&self, scn: &Scenario) -> Report {
+        let mut rep = Report::default();
+        let a = run(scn, &RunOpts::default());
+        let b = run(scn, &RunOpts::default());
+        rep.absorb(&a);
+        rep.absorb(&b);
+        let pk = scn.planner.kind.name();
+        if scn.calls.iter().filter(|c| matches!(c, CallSpec::Solve { .. })).count() > 1 {
+            rep.probe("second_solve");
+        }
+        if scn.calls.iter().filter(|c| matches!(c, CallSpec::Setup { .. })).count() > 1 {
+            rep.probe("resetup");
+        }
+        if scn.problems[0].goal.sampler == GoalSampler::Planner && a.log.iter().any(|e| matches!(e, Ev::SG(_))) {
+            rep.probe("goal_sampler_consumes_rng");
+        }
+        rep.nontrivial = a.log.iter().any(|e| matches!(e, Ev::SU(_) | Ev::SG(_))) && b.log.iter().any(|e| matches!(e, Ev::SU(_) | Ev::SG(_)));
+        let mut v = vec![];
+        // results of every call
+        for ci in 0..a.calls.len().min(b.calls.len()) {
+            if !res_bits_eq(&a.calls[ci].res, &b.calls[ci].res) {
+                v.push(viol(
+                    "C07",
+                    format!("C07/twin_result_differs/{pk}/{}", op_label(scn, ci)),
+                    format!(
+                        "two fresh {pk} instances with seed {:?} and identical calls returned different results at call #{ci} ({}): {} vs {}",
+                        scn.planner.seed,
+                        op_label(scn, ci),
+                        a.calls[ci].res.short(),
+                        b.calls[ci].res.short()
+                    ),
+                ));
+                break;
+            }
+        }
+        if v.is_empty() {
+            if let Some(i) = first_divergence(&a, &b) {
+                // locate the call the divergent event belongs to
+                let ci = a.calls.iter().position(|c| i >= c.ev_lo && i < c.ev_hi).unwrap_or(0);
+                v.push(viol(
+                    "C07",
+                    format!("C07/twin_history_differs/{pk}/{}", op_label(scn, ci)),
+                    format!(
+                        "identically driven twins diverge at event #{i} (call #{ci}, {}): {:?} vs {:?}",
+                        op_label(scn, ci),
+                        a.log.get(i).map(|e| e.kind_byte() as char),
+                        b.log.get(i).map(|e| e.kind_byte() as char)
+                    ),
+                ));
+            }
+        }
+        // schedule perturbation: same seed, other clock pattern and a later deadline
+        if scn.param("perturb") == Some(1.0) && v.is_empty() {
+            rep.probe("perturbation_twin");
+            let mut s2 = scn.clone();
+            s2.clock.tick_ns = scn.clock.tick_ns * 7 + 3;
+            s2.clock.cost_valid = vec![17, 0, 3];
+            s2.clock.cost_sample = vec![5];
+            s2.clock.cost_goal = vec![0, 11];
+            for c in &mut s2.calls {
+                match c {
+                    CallSpec::Solve { timeout_ns, stalls } => {
+                        *timeout_ns = 1_000_000_000_000;
+                        let n = a.log.iter().filter(|e| e.phase() == Some(Phase::Sample)).count() as u64;
+                        *stalls = vec![Stall { at: Phase::Sample, nth: n + 7, ns: STALL_NS }];
+                    }
+                    _ => {}
+                }
+            }
+            if scn.planner.kind != PlannerKind::PRM {
+                let c = run(&s2, &RunOpts::default());
+                rep.absorb(&c);
+                let strip = |o: &crate::sim::Outcome| -> Vec<Ev> { o.log.iter().filter(|e| e.phase().is_some()).cloned().collect() };
+                let (ea, ec) = (strip(&a), strip(&c));
+                let n = ea.len().min(ec.len());
+                if let Some(i) = (0..n).find(|i| !ev_bits_eq(&ea[*i], &ec[*i])) {
+                    v.push(viol(
+                        "C07",
+                        format!("C07/time_changes_decisions/{pk}"),
+                        format!("with the same seed but another clock cost pattern the planner's {i}-th sampling/validity/goal event differs: time changed which decisions were taken, not only how many iterations ran"),
+                    ));
+                } else if ea.len() > ec.len() {
+                    v.push(viol(
+                        "C07",
+                        format!("C07/time_changes_decisions/{pk}"),
+                        "the run with the later deadline executed fewer events than the run with the earlier one".into(),
+                    ));
+                }
+            }
+        }
+        rep.violations = v;
+        rep
+    }
+}
+
+// ==========================================================================================
+// C08 — API misuse and sampler failures surface as errors (reference model + fault enumeration)
+
+pub struct C08;
+
+#[derive(Clone, Copy, PartialEq, Debug)]
+enum Op {
+    New,
+    Setup0,
+    Setup1,
+    Construct,
+    SetProblem1,
+    Solve,
+}
+const OPS_PRM: [Op; 6] = [Op::New, Op::Setup0, Op::Setup1, Op::Construct, Op::SetProblem1, Op::Solve];
+const OPS_TREE: [Op; 4] = [Op::New, Op::Setup0, Op::Setup1, Op::Solve];
+
+fn seq_count(alpha: usize, max_len: usize) -> u64 {
+    (1..=max_len).map(|l| (alpha as u64).pow(l as u32)).sum()
+}
+
+/// n-th call sequence (shortest first) over the alphabet
+fn nth_seq(alpha: &[Op], mut n: u64) -> Vec<Op> {
+    let a = alpha.len() as u64;
+    let mut len = 1;
+    loop {
+        let c = a.pow(len);
+        if n < c {
+            break;
+        }
+        n -= c;
+        len += 1;
+    }
+    let mut v = vec![];
+    for _ in 0..len {
+        v.push(alpha[(n % a) as usize]);
+        n /= a;
+    }
+    v
+}
+
+struct C08Layout {
+    max_len: usize,
+    n_seq: [u64; 4], // per planner in PlannerKind::ALL order
+    max_k: u64,
+    n_fault: u64,
+    n_param: u64,
+}
+
+fn c08_layout(tier: Tier) -> C08Layout {
+    let max_len = if tier == Tier::Thorough { 6 } else { 4 };
+    let max_k = if tier == Tier::Thorough { 64 } else { 16 };
+    let t = seq_count(4, max_len);
+    let p = seq_count(6, max_len);
+    C08Layout { max_len, n_seq: [t, t, t, p], max_k, n_fault: 4 * 2 * max_k, n_param: 4 * 6 }
+}
+
+fn c08_small_world(rng: &mut Xo, kind: PlannerKind, seed: u64, index: u64) -> Scenario {
+    // a cheap, mostly feasible two-problem scenario
+    let o = GenOpts {
+        planner: Some(kind),
+        families: vec!["open", "balls", "balls"],
+        space_kinds: vec!["RV", "RV", "SE2", "SO2", "Compound"],
+        max_iters: 60,
+        min_frac: 0.05,
+        goal_sampler: Some(GoalSampler::Harness),
+        ..Default::default()
+    };
+    let mut scn = gen::base(rng, "C08", seed, index, &o);
+    let ext = scn.param("ext").unwrap_or(1.0);
+    scn.planner.max_distance = ext * rng.range(0.1, 0.4);
+    scn.planner.search_radius = scn.planner.max_distance * 1.5;
+    scn.planner.connection_radius = ext * rng.range(0.3, 0.8);
+    scn.planner.goal_bias = 0.3;
+    // second problem in the same world (the checker in force is the one given to setup)
+    let mut geo = crate::spaces::geo_for(&scn.space).unwrap();
+    geo.set_worlds(&scn.worlds);
+    let mut pick = |rng: &mut Xo| -> St {
+        for _ in 0..200 {
+            if let Some(s) = geo.sample(rng) {
+                if geo.valid(0, &s) {
+                    return s;
+                }
+            }
+        }
+        scn.problems[0].starts[0].clone()
+    };
+    let (s2, t2) = (pick(rng), pick(rng));
+    let g = scn.problems[0].goal.clone();
+    scn.problems.push(ProblemSpec {
+        starts: vec![s2],
+        goal: GoalSpec { target: t2, radius: g.radius, sampler: GoalSampler::Harness, sampler_seed: g.sampler_seed + 1 },
+        world: 0,
+    });
+    scn
+}
+
+impl Check for C08 {
+    fn id(&self) -> &'static str {
+        "C08"
+    }
+    fn level(&self) -> &'static str {
+        "fault_enumeration"
+    }
+    fn rule(&self) -> String {
+        "index ranges, in order: (1) EVERY call sequence up to length 4 (quick) / 6 (thorough) over {new, setup(P1), setup(P2), construct_roadmap, set_problem_definition(P2), solve} for PRM and over {new, setup(P1), setup(P2), solve} for the tree planners, each in a generated two-problem world, checked call by call against a reference state machine; (2) for every planner x {uniform sampler, goal sampler}: the sampler fails at its k-th call for EVERY k <= 16 (quick) / 64 (thorough); (3) goal bias in {-0.1, 1.5, NaN}, empty start list, unbounded R^n, negative step; (4) seeded well-formed scenarios from all world families. distinct = distinct scenario hash; non-trivial = the sequence contains a solve or construct call that executed (ranges 1, 4) or the injected fault actually fired while the planner was running (ranges 2, 3)".into()
+    }
+    fn default_runs(&self, tier: Tier) -> u64 {
+        let l = c08_layout(tier);
+        let fixed: u64 = l.n_seq.iter().sum::<u64>() + l.n_fault + l.n_param;
+        fixed + if tier == Tier::Thorough { 200_000 } else { 8_000 }
+    }
+    fn assumptions(&self) -> Vec<String> {
+        vec!["after a panic the scenario stops (the planner may be left inconsistent); the panic itself is the violation".into()]
+    }
+    fn required_probes(&self) -> Vec<&'static str> {
+        vec!["seq_enumerated", "fault_fired", "solve_before_setup", "prm_query_before_roadmap", "stale_answer_checked", "ok_after_resetup"]
+    }
+    fn generate(&self, seed: u64, index: u64, tier: Tier) -> Scenario {
+        let l = c08_layout(tier);
+        let mut rng = Xo::new(mix(seed, "C08", index));
+        let mut i = index;
+        // (1) enumerated sequences
+        for (pi, kind) in PlannerKind::ALL.iter().enumerate() {
+            if i < l.n_seq[pi] {
+                let alpha: &[Op] = if *kind == PlannerKind::PRM { &OPS_PRM } else { &OPS_TREE };
+                let ops = nth_seq(alpha, i);
+                let mut scn = c08_small_world(&mut rng, *kind, seed, index);
+                scn.family = "call_sequence".into();
+                scn.calls = ops
+                    .iter()
+                    .map(|o| match o {
+                        Op::New => CallSpec::New,
+                        Op::Setup0 => CallSpec::Setup { problem: 0 },
+                        Op::Setup1 => CallSpec::Setup { problem: 1 },
+                        Op::Construct => gen::construct_call(30),
+                        Op::SetProblem1 => CallSpec::SetProblem { problem: 1 },
+                        Op::Solve => solve_budget(40),
+                    })
+                    .collect();
+                scn.params.insert("c08_range".into(), 1.0);
+                return scn;
+            }
+            i -= l.n_seq[pi];
+        }
+        // (2) sampler fault at the k-th call
+        if i < l.n_fault {
+            let kind = PlannerKind::ALL[(i / (2 * l.max_k)) as usize];
+            let which = (i / l.max_k) % 2;
+            let k = 1 + i % l.max_k;
+            let mut scn = c08_small_world(&mut rng, kind, seed, index);
+            scn.family = if which == 0 { "uniform_sampler_err".into() } else { "goal_sampler_err".into() };
+            scn.faults = vec![if which == 0 { FaultSpec::UniformSamplerErr { at_call: k } } else { FaultSpec::GoalSamplerErr { at_call: k } }];
+            scn.planner.goal_bias = 0.5;
+            // make reaching the k-th call likely: far goal, small steps
+            scn.planner.max_distance = scn.param("ext").unwrap_or(1.0) * 0.02;
+            scn.calls = if kind == PlannerKind::PRM {
+                vec![CallSpec::Setup { problem: 0 }, gen::construct_call(k + 20), solve_budget(1)]
+            } else {
+                vec![CallSpec::Setup { problem: 0 }, solve_budget(2 * k + 40)]
+            };
+            scn.params.insert("c08_range".into(), 2.0);
+            return scn;
+        }
+        i -= l.n_fault;
+        // (3) parameter faults
+        if i < l.n_param {
+            let kind = PlannerKind::ALL[(i / 6) as usize];
+            let mut scn = c08_small_world(&mut rng, kind, seed, index);
+            match i % 6 {
+                0 => {
+                    scn.planner.goal_bias = -0.1;
+                    scn.family = "goal_bias_out_of_range".into();
+                }
+                1 => {
+                    scn.planner.goal_bias = 1.5;
+                    scn.family = "goal_bias_out_of_range".into();
+                }
+                2 => {
+                    scn.planner.goal_bias = f64::NAN;
+                    scn.family = "goal_bias_out_of_range".into();
+                }
+                3 => {
+                    scn.problems[0].starts.clear();
+                    scn.family = "empty_start_list".into();
+                }
+                4 => {
+                    scn = {
+                        let mut s = scn;
+                        s.space = SpaceSpec::RV { dim: 2, bounds: None, frac: 0.05 };
+                        s.worlds = vec![WorldSpec::default()];
+                        s.problems.truncate(1);
+                        s.problems[0].starts = vec![vec![0.0, 0.0]];
+                        s.problems[0].goal.target = vec![3.0, 3.0];
+                        s.problems[0].goal.radius = 0.5;
+                        s.problems[0].goal.sampler = GoalSampler::Fixed;
+                        s.planner.max_distance = 0.5;
+                        s.planner.connection_radius = 2.0;
+                        s.planner.goal_bias = 0.2;
+                        s.family = "unbounded_space".into();
+                        s
+                    };
+                }
+                _ => {
+                    scn.planner.max_distance = -scn.planner.max_distance;
+                    scn.planner.connection_radius = -scn.planner.connection_radius;
+                    scn.planner.search_radius = -scn.planner.search_radius;
+                    scn.family = "negative_step".into();
+                }
+            }
+            scn.params.insert("c08_range".into(), 3.0);
+            return scn;
+        }
+        // (4) well-formed scenarios from all families
+        let o = GenOpts { max_iters: 150, min_frac: 0.01, ..Default::default() };
+        let mut scn = gen::base(&mut rng, "C08", seed, index, &o);
+        if rng.chance(0.3) {
+            with_setup_histories(&mut scn, &mut rng, 40);
+        }
+        scn.params.insert("c08_range".into(), 4.0);
+        scn
+    }
+
+    fn evaluate(&self, scn: &Scenario) -> Report {
+        use crate::sim::ErrKind::*;
+        let mut rep = Report::default();
+        let out = run(scn, &RunOpts::default());
+        rep.absorb(&out);
+        let ev = Eval::new(scn, &out);
+        let pk = scn.planner.kind.name();
+        let prm = scn.planner.kind == PlannerKind::PRM;
+        let range = scn.param("c08_range").unwrap_or(4.0) as u32;
+        if range == 1 {
+            rep.probe("seq_enumerated");
+        }
+        let mut v = vec![];
+        // reference state machine
+        let mut pd: Option<usize> = None;
+        let mut vc: Option<usize> = None;
+        let mut prev_snap: Option<Snap> = None;
+        for (ci, call) in out.calls.iter().enumerate() {
+            let op = op_label(scn, ci);
+            let opn = match &scn.calls[ci] {
+                CallSpec::New => "new",
+                CallSpec::Setup { .. } => "setup",
+                CallSpec::SetProblem { .. } => "set_problem_definition",
+                CallSpec::Construct { .. } => "construct_roadmap",
+                CallSpec::Solve { .. } => "solve",
+            };
+            // 1. every call returns normally
+            match &call.res {
+                Res::Panic(m) => {
+                    let evs = &out.log[call.ev_lo..call.ev_hi];
+                    let injected_u = scn.faults.iter().any(|f| matches!(f, FaultSpec::UniformSamplerErr { .. })) && evs.iter().any(|e| matches!(e, Ev::SU(None)));
+                    let injected_g = evs.iter().any(|e| matches!(e, Ev::SG(None)));
+                    let cause = if injected_g {
+                        "goal_sampler_err"
+                    } else if injected_u {
+                        "uniform_sampler_err"
+                    } else if evs.iter().any(|e| matches!(e, Ev::SU(None))) {
+                        "unbounded_space"
+                    } else if !(scn.planner.goal_bias >= 0.0 && scn.planner.goal_bias <= 1.0) {
+                        "goal_bias_out_of_range"
+                    } else if scn.problems.iter().any(|p| p.starts.is_empty()) {
+                        "empty_start_list"
+                    } else if scn.family == "negative_step" {
+                        "negative_step"
+                    } else {
+                        "well_formed_input"
+                    };
+                    if cause != "well_formed_input" {
+                        rep.probe("fault_fired");
+                        rep.fault(cause);
+                        rep.nontrivial = true;
+                    }
+                    v.push(viol("C08", format!("C08/panic/{pk}/{opn}/{cause}"), format!("{pk}::{opn} panicked instead of returning an error ({cause}): {m}")));
+                    break;
+                }
+                Res::Abort(m) => {
+                    v.push(viol("C08", format!("C08/no_return/{pk}/{opn}"), format!("{pk}::{opn} did not return: {m}")));
+                    break;
+                }
+                _ => {}
+            }
+            if matches!(scn.calls[ci], CallSpec::Solve { .. } | CallSpec::Construct { .. }) && !matches!(call.res, Res::Skipped) {
+                rep.nontrivial = true;
+            }
+            // 2. results against the model
+            let uninit = pd.is_none() || vc.is_none();
+            match &scn.calls[ci] {
+                CallSpec::New => {
+                    pd = None;
+                    vc = None;
+                }
+                CallSpec::Setup { problem } => {
+                    pd = Some(*problem);
+                    vc = Some(scn.problems[*problem].world);
+                    if let Some(s) = &call.snap {
+                        let ok = match s {
+                            Snap::Prm(r) => r.is_empty(),
+                            Snap::Tree(t) => t.len() == 1 && crate::spaces::bits_eq(&t[0].0, &scn.problems[*problem].starts[0]),
+                            Snap::Star(t) => t.len() == 1 && crate::spaces::bits_eq(&t[0].0, &scn.problems[*problem].starts[0]),
+                            Snap::Connect(a, b) => a.len() == 1 && b.len() == 1 && crate::spaces::bits_eq(&a[0].0, &scn.problems[*problem].starts[0]),
+                        };
+                        if !ok {
+                            v.push(viol("C08", format!("C08/setup_keeps_state/{pk}"), format!("after setup(P{problem}) the planner still holds {} nodes from before (stale state)", s.node_count())));
+                        }
+                    }
+                }
+                CallSpec::SetProblem { problem } => {
+                    if prm {
+                        pd = Some(*problem);
+                        if let (Some(a), Some(b)) = (&prev_snap, &call.snap) {
+                            if a != b {
+                                v.push(viol("C08", "C08/set_problem_changes_roadmap/PRM".into(), "set_problem_definition changed the roadmap".into()));
+                            }
+                        }
+                    }
+                }
+                CallSpec::Construct { .. } => {
+                    if prm {
+                        let want_uninit = uninit;
+                        match (&call.res, want_uninit) {
+                            (Res::Err(PlannerUninitialised), true) => {}
+                            (Res::Unit, false) => {}
+                            (r, _) => v.push(viol(
+                                "C08",
+                                format!("C08/wrong_result/PRM/construct_roadmap"),
+                                format!("construct_roadmap returned {} but the reference model expects {}", r.short(), if want_uninit { "Err(PlannerUninitialised)" } else { "Ok(())" }),
+                            )),
+                        }
+                    }
+                }
+                CallSpec::Solve { .. } => {
+                    let roadmap_empty = prm && prev_snap.as_ref().map(|s| s.node_count() == 0).unwrap_or(true);
+                    let start_invalid = match (pd, vc) {
+                        (Some(p), Some(w)) => scn.problems[p].starts.first().map(|s| !ev.geo.valid(w, s)).unwrap_or(false),
+                        _ => false,
+                    };
+                    let expect: &str = if uninit {
+                        rep.probe("solve_before_setup");
+                        "Err(PlannerUninitialised)"
+                    } else if roadmap_empty {
+                        rep.probe("prm_query_before_roadmap");
+                        "Err(UnsampledStateSpace)"
+                    } else if start_invalid {
+                        "Err(InvalidStartState)"
+                    } else {
+                        "Ok|Timeout|NoSolutionFound"
+                    };
+                    let ok = match (&call.res, expect) {
+                        (Res::Err(PlannerUninitialised), "Err(PlannerUninitialised)") => true,
+                        (Res::Err(UnsampledStateSpace), "Err(UnsampledStateSpace)") => true,
+                        (Res::Err(InvalidStartState), "Err(InvalidStartState)") => true,
+                        (Res::Path(_), "Ok|Timeout|NoSolutionFound") => true,
+                        (Res::Err(Timeout), "Ok|Timeout|NoSolutionFound") => true,
+                        (Res::Err(NoSolutionFound), "Ok|Timeout|NoSolutionFound") => prm,
+                        _ => false,
+                    };
+                    if !ok {
+                        v.push(viol(
+                            "C08",
+                            format!("C08/wrong_result/{pk}/solve/{}", expect.trim_start_matches("Err(").trim_end_matches(')')),
+                            format!("call #{ci} ({op}): solve returned {} but the reference model expects {expect}", call.res.short()),
+                        ));
+                    }
+                    if let Res::Path(_) = &call.res {
+                        // a successful solve answers the most recently installed problem
+                        rep.probe("stale_answer_checked");
+                        if scn.calls[..ci].iter().filter(|c| matches!(c, CallSpec::Setup { .. } | CallSpec::SetProblem { .. })).count() > 1 {
+                            rep.probe("ok_after_resetup");
+                        }
+                        let mut w = vec![];
+                        ev.c02(ci, &mut w);
+                        ev.c01(ci, &mut w);
+                        for x in w {
+                            v.push(viol("C08", format!("C08/stale_answer/{pk}/{}", x.sig), format!("call #{ci} ({op}): {}", x.detail)));
+                        }
+                    }
+                }
+            }
+            if call.snap.is_some() {
+                prev_snap = call.snap.clone();
+            }
+            if matches!(scn.calls[ci], CallSpec::New) {
+                prev_snap = None;
+            }
+        }
+        if range == 2 && out.faults_fired > 0 && v.is_empty() {
+            // the fault fired and the planner turned it into a normal return
+            rep.probe("fault_fired");
+            rep.fault(&scn.family);
+            rep.nontrivial = true;
+        }
+        rep.violations = v;
         rep
     }
 }
